@@ -591,9 +591,57 @@ def check_vertex_cycle(ctx, rep, rule='T-vertex-cycle'):
                                     has_r = val
                                 else:
                                     has_l = val
+        # `for (slot, v) in map[a..b].iter_mut().zip(c..) { *slot = v }` is map[j] = j + (c - a) for j in a..b
+        zipped = {}
+        for e in p.events:
+            if e['k'] != 'loophead':
+                continue
+            for l, v in e.get('pre', {}).items():
+                z = strip_upd(v)
+                while z[0] in ('call', 'pcall') and z[1].endswith('into_iter') and len(z[2]) == 1:
+                    z = strip_upd(z[2][0])
+                if not (z[0] in ('call', 'pcall') and z[1].endswith('Iterator::zip') and len(z[2]) == 2):
+                    continue
+                sl, cnt = strip_upd(z[2][0]), strip_upd(z[2][1])
+                if not (sl[0] in ('call', 'pcall') and sl[1].endswith('::iter_mut') and len(sl[2]) == 1):
+                    continue
+                im = strip_upd(sl[2][0])
+                if not (im[0] in ('call', 'pcall') and im[1].endswith('index_mut') and len(im[2]) == 2):
+                    continue
+                r_ = strip_upd(im[2][1])
+                if r_[0] == 'agg' and r_[5].endswith('::Range') and len(r_[4]) == 2:
+                    rng = ('excl', r_[4][0], r_[4][1])
+                elif r_[0] in ('call', 'pcall') and r_[1].endswith('RangeInclusive::<Idx>::new') and len(r_[2]) == 2:
+                    rng = ('incl', r_[2][0], r_[2][1])
+                else:
+                    continue
+                if cnt[0] == 'agg' and cnt[5].endswith('::RangeFrom') and len(cnt[4]) == 1:
+                    zipped[l] = (rng, cnt[4][0])
+
+        def zip_item(v, part):
+            x = strip_upd(v)
+            if x[0] == 'deref':
+                x = strip_upd(x[1])
+            if x[0] == 'field' and str(x[2]) == str(part):
+                y = strip_upd(x[1])
+                if y[0] == 'field' and str(y[2]) == '0' and strip_upd(y[1])[0] == 'variant':
+                    c_ = strip_upd(strip_upd(y[1])[1])
+                    if c_[0] in ('call', 'pcall') and c_[1].endswith('::next') and len(c_[2]) == 1:
+                        a_ = strip_upd(c_[2][0])
+                        if a_[0] == 'ref' and a_[1][0][0] == 'loc':
+                            return a_[1][0][2]
+            return None
+
         for e in p.events:
             if e['k'] == 'store' and e['loc'][0][0] == 'ext':
                 base = strip_upd(e['loc'][0][1])
+                zl = zip_item(base, 0)
+                if zl is not None and zl in zipped and zip_item(e['val'], 1) == zl and not e['loc'][1]:
+                    (kind, a_, b_), c_ = zipped[zl]
+                    d, k_ = _comb(_lin(c_, names), _lin(a_, names), -1)
+                    got.add(('chain', 'j%+d' % k_ if not d and k_ else '?'))
+                    ranges.add((kind, _ix(a_, names), _ix(b_, names)))
+                    continue
                 if base[0] in ('call', 'pcall') and base[1].endswith('index_mut') and len(base[2]) == 2:
                     idx = _ix(base[2][1], names)
                     val = _ix(e['val'], names)
